@@ -114,6 +114,14 @@ CHECKS.update({
   "DESIGN.md 4 C11"),
 })
 
+CHECKS.update({
+ "C17": ("fault_enumeration", "dialogx",
+  "same deviation-bounded explorer as C09 with unique secrets; after every run (success and every single fault at every point) all artefacts are byte-scanned for each secret in plain, URL-, path-, XML-escaped form and every 8-byte window",
+  "22 scenarios, baseline + every single deviation at every answer point (1836 runs); every file the run leaves plus stdout/stderr is scanned.",
+  "Secrets contain characters that need escaping; device never echoes at password prompts.",
+  "DESIGN.md 4 C17"),
+})
+
 NOT_YET = "check not built yet in this round (design in DESIGN.md section 4); no technique switch intended"
 
 def main():
